@@ -87,7 +87,15 @@ fn get_decl_name_token_lsp_range(
         .get_decl_index()
         .get_decl(&decl_id)?;
     let document = semantic_model.get_document_by_file_id(decl_id.file_id)?;
-    document.to_lsp_range(decl.get_range())
+    // `local x <const>`: the declaration spans the attribute, only the name token is renamed
+    let range = decl.get_range();
+    let name_len = rowan::TextSize::of(decl.get_name());
+    let range = if name_len < range.len() {
+        rowan::TextRange::at(range.start(), name_len)
+    } else {
+        range
+    };
+    document.to_lsp_range(range)
 }
 
 #[allow(clippy::mutable_key_type)]
